@@ -92,17 +92,17 @@ Theorem C05_bfgs_history_pairing :
       Forall (faithful V prior L nonneg) out /\ map (s_vec V) out = hist.
 Proof. exact bfgs_vis_pairing. Qed.
 
-(* ---------- emcee: the full statement, for the repaired call (in /repo since 97df212) and, as the record of
-   the defect, for the call that was pinned before ---------- *)
+(* ---------- emcee: the full statement holds for the log-prob call /repo has since 97df212 (C05_emcee_pairing);
+   the `_legacy_` theorems are the record of the call pinned before (refutation witness, and what it got right) ---------- *)
 (* emcee_pairing_statement aligned := for every exact arithmetic, chain, log-prob array satisfying
    the sampler contract, discard and thin: every sample of emcee_convert aligned ... is faithful *)
-Theorem C05_emcee_pairing_fixed : emcee_pairing_statement true.
+Theorem C05_emcee_pairing : emcee_pairing_statement true.
 Proof. exact emcee_fixed_holds. Qed.
 
-Theorem C05_emcee_pairing_refuted : ~ emcee_pairing_statement false.
+Theorem C05_emcee_pairing_legacy_refuted : ~ emcee_pairing_statement false.
 Proof. exact emcee_pinned_refuted. Qed.
 
-Theorem C05_emcee_fixed_complete :
+Theorem C05_emcee_complete :
   forall (V : Type) (add sub : V -> V -> V) (one : V) (prior L : list V -> V) (nonneg : V -> Prop),
     (forall a b : V, sub (add a b) b = a) -> nonneg one ->
     forall (paths : list path) (chain : list (list (list V))) (logp : list (list V)) (discard thin : nat)
@@ -115,7 +115,7 @@ Theorem C05_emcee_fixed_complete :
 Proof. exact emcee_aligned_pairing. Qed.
 
 (* pinned call: priors, weights and rows are right (only the log-likelihood is mispaired) *)
-Theorem C05_emcee_pairing_partial :
+Theorem C05_emcee_pairing_legacy_partial :
   forall (V : Type) (sub : V -> V -> V) (one : V) (prior : list V -> V) (paths : list path)
          (chain : list (list (list V))) (logp : list (list V)) (discard thin : nat) (out : list (sample V)),
     Forall (rows_ok V paths) chain ->
@@ -144,12 +144,13 @@ Theorem C05_zeus_pairing_partial :
 Proof. exact zeus_pinned_rows. Qed.
 
 (* ---------- pyswarms ---------- *)
-Theorem C05_pyswarms_pairing_refuted : ~ pyswarms_pairing_statement.
+Theorem C05_pyswarms_pairing_legacy_refuted : ~ pyswarms_pairing_statement.
 Proof. exact pyswarms_refuted. Qed.
 
-(* the repaired conversion (proposed_fixes/C05-pyswarms-pbest-samples; FPyswarmsPbest in the correspondence once
-   the source has it): the particles' personal bests, under pyswarms' contract pbest_cost[i] = cost(pbest_pos[i]) *)
-Theorem C05_pyswarms_pairing_fixed :
+(* the conversion /repo has since fe260fe (FPyswarmsPbest in the correspondence): the particles' personal bests,
+   under pyswarms' contract pbest_cost[i] = cost(pbest_pos[i]).  The `_legacy_` theorems below are the record of the
+   conversion pinned before (particle 0 of each iteration + best-cost history). *)
+Theorem C05_pyswarms_pairing :
   forall (V : Type) (add sub : V -> V -> V) (neghalf : V -> V) (one : V) (prior L : list V -> V) (nonneg : V -> Prop),
     (forall a b : V, sub (add a b) b = a) -> nonneg one ->
     forall (paths : list path) (rows : list (list V)) (cost : list V) (out : list (sample V)),
@@ -160,7 +161,7 @@ Theorem C05_pyswarms_pairing_fixed :
 Proof. exact pyswarms_pbest_pairing. Qed.
 
 (* guard excluding the defect: a swarm of one particle whose best-cost history is that particle's cost *)
-Theorem C05_pyswarms_pairing_partial :
+Theorem C05_pyswarms_single_particle_legacy_partial :
   forall (V : Type) (add sub : V -> V -> V) (neghalf : V -> V) (one : V) (prior L : list V -> V) (nonneg : V -> Prop),
     (forall a b : V, sub (add a b) b = a) -> nonneg one ->
     forall (paths : list path) (xs : list (list V)) (cost : list V) (out : list (sample V)),
@@ -172,7 +173,7 @@ Proof. exact pyswarms_single_particle. Qed.
 
 (* pinned code, EVERY swarm: one sample per iteration, its parameters are the first particle of that
    iteration, weight 1 (log-likelihood and log-prior belong to other particles) *)
-Theorem C05_pyswarms_rows_partial :
+Theorem C05_pyswarms_rows_legacy_partial :
   forall (V : Type) (sub : V -> V -> V) (neghalf : V -> V) (one : V) (prior : list V -> V) (paths : list path)
          (pos : list (list (list V))) (cost : list V) (out : list (sample V)) (firsts : list (list V)),
     Forall (rows_ok V paths) pos ->
@@ -261,9 +262,9 @@ Proof. exact best_vector_is_row. Qed.
 
 Print Assumptions C05_from_lists_pairing.
 Print Assumptions C05_dynesty_pairing.
-Print Assumptions C05_emcee_pairing_fixed.
-Print Assumptions C05_emcee_pairing_refuted.
-Print Assumptions C05_pyswarms_pairing_refuted.
+Print Assumptions C05_emcee_pairing.
+Print Assumptions C05_emcee_pairing_legacy_refuted.
+Print Assumptions C05_pyswarms_pairing_legacy_refuted.
 Print Assumptions C05_best_is_first_maximum.
 Print Assumptions C05_best_vector.
 Print Assumptions C05_initializer_pairing.
